@@ -2,14 +2,16 @@
 """rewrites the auto-generated tables of DESIGN.md (between the BEGIN/END markers)"""
 import json, os, glob, re
 V = os.path.dirname(os.path.dirname(os.path.abspath(__file__)))
-rows = ["| seeded change | property | what it breaks | needs | caught by (quick tier) |", "|---|---|---|---|---|"]
+rows = ["| seeded change | property | what it breaks | needs | caught by (quick tier) | first run |", "|---|---|---|---|---|---|"]
 for d in sorted(glob.glob(os.path.join(V, "seeded", "*", "meta.json"))):
     name = os.path.basename(os.path.dirname(d))
     m = json.load(open(d))
     det = m.get("detected_by") or {}
     hs = ", ".join(det.get("harnesses", [])[:4]) + (" …" if len(det.get("harnesses", [])) > 4 else "")
-    rows.append("| %s | %s | %s | %s | %s |" % (name, m["property"], m["breaks"].replace("|", "/")[:150], m["needs_to_manifest"].replace("|", "/")[:110],
-                                            ("exit %s: %s" % (det.get("check_exit_code"), hs)) if det else "not run"))
+    first = m.get("first_run", "caught")
+    first = first.replace("missed (or inconclusive) by the check as it stood when the seed arrived; caught after: ", "MISSED; added: ")
+    rows.append("| %s | %s | %s | %s | %s | %s |" % (name, m["property"], m["breaks"].replace("|", "/")[:150], m["needs_to_manifest"].replace("|", "/")[:110],
+                                            ("exit %s: %s" % (det.get("check_exit_code"), hs)) if det else "not run", first.replace("|", "/")))
 txt = open(os.path.join(V, "DESIGN.md")).read()
 block = "<!-- BEGIN SEEDED TABLE -->\n" + "\n".join(rows) + "\n<!-- END SEEDED TABLE -->"
 txt = re.sub(r"<!-- BEGIN SEEDED TABLE -->.*?<!-- END SEEDED TABLE -->", lambda _: block, txt, flags=re.S)
